@@ -455,18 +455,16 @@ def argsort (d : List Int) : List Nat :=
   (List.range d.length).foldr (insertBy (fun i => d.getD i 0)) []
 
 /-- `count_cliques(adjacency, clique_size)` on a matrix of shape `nRow × nCol`: the clique size is checked first,
-    then `get_core_decomposition` (which refuses a non-square matrix and works on `coreEdge val`), then `get_dag` on
-    the matrix itself: `edge i j` = some stored entry `(i, j)` is non-zero (`astype(bool)` converts entry by entry
-    and adds duplicates as booleans, so `1` and `-1` stored at the same place are an edge of the DAG although they
-    cancel in `coreEdge`) -/
-def countCliquesEntry (nRow nCol : Nat) (val : Nat → Nat → Rat) (edge : Nat → Nat → Bool) (k : Int) :
-    Except PyErr (Option Nat) :=
+    then `check_format` / `check_square`, then — as `count_triangles` does — the matrix is symmetrised
+    (`directed2undirected`: the stored entries of `A + Aᵀ`, a canonical matrix), and both the core values and the
+    DAG are computed on that graph `symEdge val` -/
+def countCliquesEntry (nRow nCol : Nat) (val : Nat → Nat → Rat) (k : Int) : Except PyErr (Option Nat) :=
   if k < 2 then .error .valueError
+  else if nRow != nCol then .error .valueError
   else
-    match getCoreDecomposition nRow nCol val with
-    | .error e => .error e
-    | .ok none => .ok none
-    | .ok (some values) => (countCliquesWith nRow edge k.toNat (argsort values)).map some
+    match computeCore (csrOfEdge nRow (symEdge val)).indptr (csrOfEdge nRow (symEdge val)).indices with
+    | none => .ok none
+    | some values => (countCliquesWith nRow (symEdge val) k.toNat (argsort values)).map some
 
 /-- `count_cliques(adjacency, clique_size)`: `g` is the CSR structure `get_core_decomposition` receives
     (all stored entries), `edge` the stored non-zero entries (`astype(bool)` in `get_dag`). -/
